@@ -231,7 +231,8 @@ public:
     QXmppTransferFileInfo fileInfo;
 
     // for in-band bytestreams
-    int ibbSequence;
+    // XEP-0047: the sequence counter is 16-bit and wraps to 0 after 65535, on both sides
+    quint16 ibbSequence;
 
     // for socks5 bytestreams
     QTcpSocket *socksSocket;
